@@ -14,6 +14,21 @@ type Parser struct {
 	inFunction      bool
 	inLoop          bool
 	lexErr          error
+	depth           int // nesting of the expression / statement being parsed
+}
+
+// parseDepthLimit bounds the nesting of expressions and statements. The parser
+// descends recursively; without a bound a program of a few million nested
+// parentheses, brackets, prefix operators or blocks overflows the Go stack.
+// Nothing nested deeper than evalDepthLimit could be evaluated anyway.
+const parseDepthLimit = 200000
+
+func (p *Parser) enter() error {
+	p.depth++
+	if p.depth > parseDepthLimit {
+		return p.error(p.current.Pos, "program nested too deeply")
+	}
+	return nil
 }
 
 type parseRule struct {
@@ -119,13 +134,18 @@ func (p *Parser) advance() (Token, error) {
 	p.current = &t
 	p.didEndStatement = false
 
-	if t.Tag == Newline {
-		// pretend the newline didn't exist and set didEndStatement
-		oldPrev := p.previous
-		newToken, err := p.advance()
-		p.previous = oldPrev
+	// pretend newlines didn't exist and set didEndStatement (a loop, not a
+	// recursion: a program may hold millions of consecutive line ends)
+	for t.Tag == Newline {
+		t, err = p.lexer.Next()
+		if err != nil {
+			if p.lexErr == nil {
+				p.lexErr = err
+			}
+			return t, err
+		}
+		p.current = &t
 		p.didEndStatement = true
-		return newToken, err
 	}
 
 	return t, nil
@@ -184,6 +204,11 @@ func (p *Parser) block() (StatementBlock, error) {
 }
 
 func (p *Parser) statement() (Statement, error) {
+	if err := p.enter(); err != nil {
+		return nil, err
+	}
+	defer func() { p.depth-- }()
+
 	p.didEndStatement = false
 	switch p.current.Tag {
 	case Print:
@@ -441,6 +466,11 @@ func (p *Parser) expression() (Expr, error) {
 }
 
 func (p *Parser) expressionWithPrec(prec Precedence) (Expr, error) {
+	if err := p.enter(); err != nil {
+		return nil, err
+	}
+	defer func() { p.depth-- }()
+
 	prefixRule := p.rule(p.current.Tag)
 	if prefixRule.prefix == nil {
 		return nil, p.error(p.current.Pos, fmt.Sprintf("unexpected token %s", p.current.Tag))
